@@ -40,6 +40,12 @@ class ArmHooks(flow.Hooks):
     def pinned(self, pe):
         return ("M", pe) in self.init_facts(self.fn)
 
+    def load_override(self, pe, E):
+        # the state the arm is entered with (a switch on the state is decided through this, an if/else chain through decide)
+        if pe == STATE:
+            return flow.av_in(self.K)
+        return None
+
     def decide(self, inst, E):
         a, b = E.flow.expr(inst["a"]), E.flow.expr(inst["b"])
         for x, y in ((a, b), (b, a)):
